@@ -978,6 +978,8 @@ func (v *vf) vf4() {
 						}
 						if !v.chargedDeep(fn, tomb, reclaim) {
 							why = append(why, "the tombstone's size is not added to the reclaimable counter")
+						} else if v.chargeUnderResultTest(fn, tomb, reclaim, call) {
+							why = append(why, "the tombstone's size is charged only when the index delete found a victim: live paths charge every tombstone, so the counters disagree after a restart")
 						}
 					}
 					if w := v.supersededCharged(fn, call, reclaim); w != "" {
@@ -1064,4 +1066,46 @@ func (v *vf) addedOnPathOf(fn *ssa.Function, counter *types.Var, pos ssa.Value, 
 		}
 	}
 	return false
+}
+
+// chargeUnderResultTest: every add of pos.Size to counter in fn lies under a nil test of res.
+func (v *vf) chargeUnderResultTest(fn *ssa.Function, pos ssa.Value, counter *types.Var, res ssa.Value) bool {
+	found, allUnder := false, true
+	for _, b := range fn.Blocks {
+		for _, in := range b.Instrs {
+			f, _, val := core.StoreField(in)
+			if f != counter {
+				continue
+			}
+			bo, ok := val.(*ssa.BinOp)
+			if !ok || bo.Op != token.ADD {
+				continue
+			}
+			for _, op := range []ssa.Value{bo.X, bo.Y} {
+				sf, base := core.LoadedField(core.Unwrap(op))
+				if sf != v.p.R.PosSize || !sameOrigin(base, pos) {
+					continue
+				}
+				found = true
+				under := false
+				for _, gb := range fn.Blocks {
+					iff, isIf := gb.Instrs[len(gb.Instrs)-1].(*ssa.If)
+					if !isIf {
+						continue
+					}
+					c, isBo := iff.Cond.(*ssa.BinOp)
+					if !isBo || !core.IsNilConst(c.Y) || !sameOriginLoose(c.X, res) {
+						continue
+					}
+					if edgeDominates(iff, true, b) || edgeDominates(iff, false, b) {
+						under = true
+					}
+				}
+				if !under {
+					allUnder = false
+				}
+			}
+		}
+	}
+	return found && allUnder
 }
